@@ -92,6 +92,11 @@ func buildFamily(c ev.Case, n int, extra int) string {
 	if c.Kind == "counter" {
 		// distinct words / dollar tags: unit with a running counter
 		for i := 0; sb.Len() < n-len(suf) || i < extra; i++ {
+			if strings.IndexByte(unit, '#') >= 0 {
+				// template: every '#' is replaced by the i-th distinct word
+				sb.WriteString(strings.ReplaceAll(unit, "#", counterWord(i)))
+				continue
+			}
 			sb.WriteString(unit)
 			sb.WriteString(counterWord(i))
 			sb.WriteString(" ")
@@ -236,6 +241,12 @@ func TestC09(t *testing.T) {
 				add(famCase("repeat", p, u, s))
 			}
 		}
+	}
+	// distinct words kept folding by glue tokens (a cost per distinct word only shows when the whole input is tokenized)
+	for _, u := range []string{"c#,", "'#',", "@#,", "c#+", "c#=c# or ", "#.", "`#`,", "c#(", "$#$x$#$,", "[#],", "1 #,", "# = ", "<#>", "<a# >", "<a #=x>", "a#=x ", "<a #='x' ", "</#>", "&#; ", "<!--#-->", "#=\"#\" "} {
+		add(famCase("counter", "", u, ""))
+		add(famCase("counter", "1 ", u, ""))
+		add(famCase("counter", "<a ", u, ""))
 	}
 	for _, u := range []string{"", "$", "@", "'", "<", "<a ", "x=", "$a", "/*"} {
 		add(famCase("counter", "", u, ""))
